@@ -26,9 +26,9 @@ for pid in ids:
             if b.returncode != 0:
                 res.append({**m, 'result': 'DOES NOT COMPILE', 'out': b.stderr[-400:]}); print(pid, m['name'], 'NOCOMPILE'); continue
             t0 = time.time()
-            env = dict(os.environ, VERIF_REPO=d, VERIF_DIR=os.path.join(d, '.verifout'))
-            os.makedirs(env['VERIF_DIR'], exist_ok=True)
-            shutil.copy(os.path.join(V, 'known_findings.jsonl'), env['VERIF_DIR'])
+            env = dict(os.environ, VERIF_REPO=d, VX_OUT_DIR=os.path.join(d, '.verifout'))
+            os.makedirs(env['VX_OUT_DIR'], exist_ok=True)
+            shutil.copy(os.path.join(V, 'known_findings.jsonl'), env['VX_OUT_DIR'])
             r = subprocess.run([os.path.join(V, 'check'), pid, m.get('tier', 'quick')], env=env, capture_output=True, text=True)
             caught = r.returncode == 1 and 'VIOLATION property=' + pid in r.stdout
             sigs = sorted({l.strip() for l in r.stdout.splitlines() if l.strip().startswith('sig=')})
